@@ -149,7 +149,10 @@ def run_extra(ctx: Ctx):
                        "one scenario is answered with what was computed for another", census=False)
 
 
-def run(ctx: Ctx):
+def scenario_index_rule(ctx: Ctx, rid: str, only=None):
+    """R16.1: every access to a scenario-specific attribute under Project.schedule uses the object's own scenario index, the scenario
+    being scheduled, or a loop over all scenarios.  `only`: restrict the reported instances to these function quals (other
+    properties share the rule for the functions their clause lives in)."""
     repo = ctx.repo
     sched = repo.func("Project.schedule")
     reach = ctx.cg.reach([sched])
@@ -188,6 +191,8 @@ def run(ctx: Ctx):
     n_acc = 0
     by_kind = {"self": 0, "param": 0, "loopvar": 0}
     for fn in sorted(reach, key=lambda f: f.key):
+        if only is not None and fn.qual not in only:
+            continue
         if not fn.module.rel.startswith("scriptplan/core/") or fn.module.rel.endswith(("timesheet.py", "journal.py", "property.py")):
             continue
         params = set(fn.params)
@@ -220,7 +225,7 @@ def run(ctx: Ctx):
                 # discharge 1: the attribute is written identically for every scenario by the parser and cannot be
                 # overridden per scenario (the grammar's scenario-specific attributes are start/end/effort/duration/length)
                 if pid in invariant:
-                    ctx.ob("R16.1", f"{fn.qual}: {norm(x)[:60]}", (fn, x), True,
+                    ctx.ob(rid, f"{fn.qual}: {norm(x)[:60]}", (fn, x), True,
                            f"'{pid}' is stored identically for all scenarios (every parser write sits in a loop over all scenarios and "
                            "the grammar has no per-scenario form): reading scenario 0 reads them all")
                     continue
@@ -230,22 +235,36 @@ def run(ctx: Ctx):
                           and any(isinstance(l, ast.For) and isinstance(l.target, ast.Name) and l.target.id == pattr_of(y)[2].id
                                   and "scenarioCount" in norm(l.iter) for l in own_nodes(fn))]
                 if others:
-                    ctx.ob("R16.1", f"{fn.qual}: {norm(x)[:60]}", (fn, x), True,
+                    ctx.ob(rid, f"{fn.qual}: {norm(x)[:60]}", (fn, x), True,
                            f"scenario 0 is the starting value; '{pid}' of the other scenarios is read in a loop over scenarioCount()")
                     continue
-                ctx.ob("R16.1", f"{fn.qual}: {norm(x)[:60]}", (fn, x), False,
+                ctx.ob(rid, f"{fn.qual}: {norm(x)[:60]}", (fn, x), False,
                        f"scenario-specific attribute '{pid}' is read with the literal scenario index {sc.value} in code that serves every scenario: "
-                       "other scenarios' overrides are ignored", key=key_of("R16.1", fn, x))
+                       "other scenarios' overrides are ignored", key=key_of(rid, fn, x))
                 continue
             if isinstance(sc, ast.Name) and sc.id in ("other_scenario", "scenario_idx", "scIdx", "scenarioIdx"):
                 by_kind["loopvar"] += 1
                 continue
-            ctx.ob("R16.1", f"{fn.qual}: {norm(x)[:60]}", (fn, x), False,
+            ctx.ob(rid, f"{fn.qual}: {norm(x)[:60]}", (fn, x), False,
                    f"scenario index expression '{t}' is neither the object's own scenario nor the scenario being scheduled",
-                   key=key_of("R16.1", fn, x))
-    ctx.ob("R16.1", f"{n_acc} scenario-specific accesses under Project.schedule: {by_kind}", sched, n_acc > 50,
+                   key=key_of(rid, fn, x))
+    ctx.ob(rid, f"{n_acc} scenario-specific accesses under Project.schedule{' in ' + ', '.join(sorted(only)) if only else ''}: {by_kind}", sched, n_acc > (50 if only is None else 3),
            "all use the object's own scenario index, the scenario parameter, or a loop over all scenarios", nontrivial=True)
     ctx.stats["scenario_accesses"] = n_acc
+
+
+def run(ctx: Ctx):
+    repo = ctx.repo
+    sched = repo.func("Project.schedule")
+    reach = ctx.cg.reach([sched])
+    scenario_index_rule(ctx, "R16.1")
+    # scenario-specific attribute ids (again, for the rules below)
+    scen_specific = set()
+    for tb in ("_define_task_attributes", "_define_resource_attributes", "_define_shift_attributes"):
+        f = repo.func(f"Project.{tb}")
+        for n in own_nodes(f):
+            if isinstance(n, ast.List) and len(n.elts) == 7 and const_str(n.elts[0]) and isinstance(n.elts[5], ast.Constant) and n.elts[5].value is True:
+                scen_specific.add(const_str(n.elts[0]))
     # ---------------------------------------------------------------- R16.2
     mutated = set()
     for fn in reach:
